@@ -28,6 +28,21 @@ NWORKERS = int(os.environ.get('VERIF_WORKERS', '16'))
 
 
 def _worker(conn, modname):
+    cov = None
+    if os.environ.get('VERIF_COVER'):
+        # development aid (tools/coverage_report.sh): which lines of the repository do the checks execute at all
+        import coverage
+        cov = coverage.Coverage(data_file=os.path.join(os.environ['VERIF_COVER'], 'cov'), data_suffix=True, source=[env.REPO], config_file=False)
+        cov.start()
+    try:
+        _worker_loop(conn, modname)
+    finally:
+        if cov is not None:
+            cov.stop()
+            cov.save()
+
+
+def _worker_loop(conn, modname):
     try:
         signal.signal(signal.SIGINT, signal.SIG_IGN)
         os.environ.setdefault('PYTHONHASHSEED', '0')
@@ -153,7 +168,7 @@ class Pool:
             t0 = time.time()
             for conn in list(self.workers):
                 w = self.workers[conn]
-                w['proc'].join(max(0.1, 3 - (time.time() - t0)))
+                w['proc'].join(max(0.1, (60 if os.environ.get('VERIF_COVER') else 3) - (time.time() - t0)))
                 self._kill(conn)
 
 
